@@ -128,8 +128,14 @@ def scopeAct : M Act := do
   | some a => pure a
   | none => throw (.crash .noActivation)
 
+/-- the activation from which type names are looked up: the declaring activation, except while the TYPE body of a
+    globally defined record type runs (a record context with `typeGlobal` on top of the stack): then the global one,
+    so that the member types of a global record type never resolve to a procedure's local types -/
+def typeScopeAct : M Act := do
+  if ((← get).acts.takeWhile (·.isComp)).any (·.typeGlobal) then globalAct else scopeAct
+
 def lookupList {β} (sel : Act → List (Str × β)) (n : Str) (global : Bool := true) : M (Option (Str × β)) := do
-  let a ← scopeAct
+  let a ← typeScopeAct
   let g ← globalAct
   match (sel a).find? (·.1 == n) with
   | some x => pure (some x)
@@ -167,7 +173,7 @@ def enumElemIn (a : Act) (v : Str) : Option Val :=
 
 /-- `Context::getEnumElement` -/
 def getEnumElement (v : Str) (global := true) : M (Option Val) := do
-  let a ← scopeAct
+  let a ← typeScopeAct
   let g ← globalAct
   match enumElemIn a v with
   | some x => pure (some x)
